@@ -11,7 +11,7 @@ CHECKS="${CHECKS:-C01 C02 C03 C04 C05 C06 C07 C08 C09 C10 C11 C12 C13 C14 C15 C1
 : > "$OUT.tmp"
 for d in controls/${1:-*}/; do
   n=$(basename "$d"); [ -f "$d/refactor.diff" ] || continue
-  res=$(LINES_MAX=2 bin/try_patch.sh "$d/refactor.diff" $CHECKS 2>&1)
+  res=$(LINES_MAX=8 bin/try_patch.sh "$d/refactor.diff" $CHECKS 2>&1)
   for c in $CHECKS; do
     if echo "$res" | grep -q "^OK $c "; then v=silent; elif echo "$res" | grep -q "^VIOLATION property=$c"; then v=ALARM; else v=error; fi
     printf "%s\t%s\t%s\n" "$n" "$c" "$v" >> "$OUT.tmp"
